@@ -133,6 +133,11 @@ where
                 .context("Failed to write to temp file")?;
         }
     }
+    // The temp file is read back through another handle: make sure every write has completed.
+    temp_file
+        .flush()
+        .await
+        .context("Failed to flush temp file")?;
     Ok((
         source_hasher.finalize().to_vec(),
         archive_chunks,
